@@ -17,6 +17,7 @@ structure St where
 deriving Repr
 
 inductive Op where
+  | reset                        -- `reset_available_resources`
   | acquire (tid : Nat)
   | giveBackItem (tid : Nat)     -- `give_back_resource_pool_item`
   | dropItem (tid : Nat)         -- `Drop for ResourcePoolItem`
@@ -25,7 +26,7 @@ inductive Op where
   | giveBack (r : Res) (d : Nat) -- `give_back_resource` (refill)
 
 def giveBackRes (s : St) (r : Res) (d : Nat) : St :=
-  if s.queue.length = s.size then s
+  if s.size ≤ s.queue.length then s
   else if s.disc ≠ d then s
   else { s with queue := s.queue ++ [r] }
 
@@ -35,8 +36,10 @@ def lookupHeld (tid : Nat) : List (Nat × Item) → Option Item
   | [] => none
   | (t, i) :: r => if t = tid then some i else lookupHeld tid r
 
-/-- the code as it is (API-atomic granularity) -/
-def step (s : St) : Op → St
+/-- the code before the `fix:` commits (API-atomic granularity): explicit give-back of an
+item used the pool's current discriminant. Kept to document the fixed finding. -/
+def stepOld (s : St) : Op → St
+  | .reset => s
   | .acquire tid =>
     match s.queue with
     | [] => s                               -- would block / time out
@@ -53,6 +56,22 @@ def step (s : St) : Op → St
   | .clear => { s with queue := [] }
   | .giveBack r d => giveBackRes s r d
 
+/-- the code as it is (API-atomic granularity; after the fix the bound test and the push are
+one critical section, so every API call is one atomic step — see DESIGN C18) -/
+def step (s : St) : Op → St
+  | .reset => s
+  | .acquire tid =>
+    match s.queue with
+    | [] => s                               -- blocks, then times out
+    | r :: q => { s with queue := q, held := (tid, { res := r, tag := s.disc }) :: s.held }
+  | .giveBackItem tid | .dropItem tid =>
+    match lookupHeld tid s.held with
+    | none => s
+    | some it => giveBackRes { s with held := removeHeld tid s.held } it.res it.tag
+  | .setDisc d => { s with disc := d }
+  | .clear => { s with queue := [] }
+  | .giveBack r d => giveBackRes s r d
+
 def Fresh (s : St) : Prop := ∀ r ∈ s.queue, r.trueGen = s.disc
 
 def init : St := { size := 2, disc := 0, queue := [⟨0⟩, ⟨0⟩], held := [] }
@@ -60,7 +79,7 @@ def init : St := { size := 2, disc := 0, queue := [⟨0⟩, ⟨0⟩], held := []
 /-- acquire under generation 0; refresh to generation 1 (bump, clear); explicit give-back
 of the old item; refill: the pool now holds a generation-0 resource under discriminant 1. -/
 theorem item_giveback_counterexample :
-    ¬ Fresh ([Op.acquire 0, .setDisc 1, .clear, .giveBackItem 0, .giveBack ⟨1⟩ 1, .giveBack ⟨1⟩ 1].foldl step init) := by
+    ¬ Fresh ([Op.acquire 0, .setDisc 1, .clear, .giveBackItem 0, .giveBack ⟨1⟩ 1, .giveBack ⟨1⟩ 1].foldl stepOld init) := by
   intro h
   have := h ⟨0⟩ (by decide)
   revert this
@@ -74,27 +93,7 @@ theorem tag_race_counterexample :
   revert this
   decide
 
-/-! ### repaired semantics -/
-
-inductive Op' where
-  | acquire (tid : Nat)
-  | giveBackItem (tid : Nat)
-  | dropItem (tid : Nat)
-  | refresh (n : Nat)            -- bump + clear + refill with n fresh resources, one critical section
-  | reset
-
-def step' (s : St) : Op' → St
-  | .acquire tid =>
-    match s.queue with
-    | [] => s
-    | r :: q => { s with queue := q, held := (tid, { res := r, tag := s.disc }) :: s.held }
-  | .giveBackItem tid | .dropItem tid =>
-    match lookupHeld tid s.held with
-    | none => s
-    | some it => giveBackRes { s with held := removeHeld tid s.held } it.res it.tag
-  | .refresh n =>
-    { s with disc := s.disc + 1, queue := (List.replicate (min n s.size) ⟨s.disc + 1⟩) }
-  | .reset => s
+/-! ### invariants of the code as it is -/
 
 def Inv (s : St) : Prop :=
   (∀ r ∈ s.queue, r.trueGen = s.disc) ∧ s.queue.length ≤ s.size ∧
@@ -129,11 +128,50 @@ theorem giveBackRes_inv {s : St} {r : Res} {d : Nat} (h : Inv s) (hr : r.trueGen
         · subst hx; simp [hr, hd']
       · simp; omega
 
-theorem step'_inv (s : St) (op : Op') (h : Inv s) : Inv (step' s op) := by
+/-- the pool never holds more than `size` resources, whatever is called in whatever order -/
+def Bounded (s : St) : Prop := s.queue.length ≤ s.size
+
+theorem giveBackRes_bounded {s : St} {r : Res} {d : Nat} (h : Bounded s) : Bounded (giveBackRes s r d) := by
+  unfold giveBackRes Bounded at *
+  split
+  · exact h
+  · split
+    · exact h
+    · simp; omega
+
+theorem step_bounded (s : St) (op : Op) (h : Bounded s) : Bounded (step s op) := by
+  cases op with
+  | reset => exact h
+  | acquire tid =>
+    simp only [step]; split
+    · exact h
+    · rename_i r q hq; unfold Bounded at *; simp [hq] at h; simp; omega
+  | giveBackItem tid | dropItem tid =>
+    simp only [step]; split
+    · exact h
+    · apply giveBackRes_bounded; exact h
+  | setDisc d => exact h
+  | clear => unfold Bounded; simp [step]
+  | giveBack r d => exact giveBackRes_bounded h
+
+theorem run_bounded (s : St) (h : Bounded s) (ops : List Op) : Bounded (ops.foldl step s) := by
+  induction ops generalizing s with
+  | nil => exact h
+  | cons op ops ih => exact ih _ (step_bounded s op h)
+
+/-- well-formedness of one API call with respect to the ghost generation:
+a resource handed to `give_back_resource` together with discriminant `d` was built for `d` -/
+def OpOk : Op → Prop
+  | .giveBack r d => r.trueGen = d
+  | .setDisc _ => False          -- generation changes only through `Reach.refresh`
+  | _ => True
+
+theorem step_inv (s : St) (op : Op) (hok : OpOk op) (h : Inv s) : Inv (step s op) := by
   obtain ⟨h1, h2, h3⟩ := h
   cases op with
+  | reset => exact ⟨h1, h2, h3⟩
   | acquire tid =>
-    simp only [step']
+    simp only [step]
     split
     · exact ⟨h1, h2, h3⟩
     · rename_i r q hq
@@ -146,7 +184,7 @@ theorem step'_inv (s : St) (op : Op') (h : Inv s) : Inv (step' s op) := by
         · simp [h1 r (by simp [hq])]
         · exact h3 x hx
   | giveBackItem tid | dropItem tid =>
-    simp only [step']
+    simp only [step]
     split
     · exact ⟨h1, h2, h3⟩
     · rename_i it hit
@@ -157,19 +195,47 @@ theorem step'_inv (s : St) (op : Op') (h : Inv s) : Inv (step' s op) := by
         intro x hx
         exact h3 x (by simp [removeHeld] at hx; exact hx.1)
       · exact hit3.1.symm
-  | refresh n =>
-    simp only [step']
-    refine ⟨?_, ?_, ?_⟩
-    · intro x hx; simp [List.mem_replicate] at hx; simp [hx.2]
-    · simp; omega
-    · intro x hx; obtain ⟨a, b⟩ := h3 x hx; exact ⟨a, by simp; omega⟩
-  | reset => exact ⟨h1, h2, h3⟩
+  | setDisc d => exact absurd hok (by simp [OpOk])
+  | clear =>
+    refine ⟨?_, ?_, h3⟩
+    · intro x hx; simp [step] at hx
+    · simp [step]
+  | giveBack r d => exact giveBackRes_inv ⟨h1, h2, h3⟩ hok
 
-/-- every reachable state of the repaired pool is fresh and bounded -/
-theorem reachable_inv (s : St) (h : Inv s) (ops : List Op') : Inv (ops.foldl step' s) := by
-  induction ops generalizing s with
-  | nil => exact h
-  | cons op ops ih => exact ih _ (step'_inv s op h)
+/-- a refresh whose `set_discriminant` and `clear` are not separated by another call -/
+theorem refresh_inv (s : St) (d : Nat) (hd : s.disc ≤ d) (h : Inv s) :
+    Inv (step (step s (.setDisc d)) .clear) := by
+  obtain ⟨h1, h2, h3⟩ := h
+  refine ⟨?_, ?_, ?_⟩
+  · intro x hx; simp [step] at hx
+  · simp [step]
+  · intro x hx
+    obtain ⟨a, b⟩ := h3 x (by simpa [step] using hx)
+    exact ⟨a, by simp [step]; omega⟩
 
-#print axioms reachable_inv
+/-- states reachable by any interleaving of API calls by any number of users, in which the two
+calls of a refresh (`set_discriminant(d)`, `clear()`) are adjacent -/
+inductive Reach (s0 : St) : St → Prop
+  | init : Reach s0 s0
+  | api (s : St) (op : Op) : Reach s0 s → OpOk op → Reach s0 (step s op)
+  | refresh (s : St) (d : Nat) : Reach s0 s → s.disc ≤ d → Reach s0 (step (step s (.setDisc d)) .clear)
+
+theorem reach_inv (s0 s : St) (h0 : Inv s0) (hr : Reach s0 s) : Inv s := by
+  induction hr with
+  | init => exact h0
+  | api s op _ hok ih => exact step_inv s op hok ih
+  | refresh s d _ hd ih => exact refresh_inv s d hd ih
+
+/-- hand-out freshness: a resource acquired in a reachable state belongs to the current generation -/
+theorem acquire_fresh (s0 s : St) (h0 : Inv s0) (hr : Reach s0 s) (tid : Nat) (it : Item)
+    (h : lookupHeld tid (step s (.acquire tid)).held = some it) (hne : s.queue ≠ []) :
+    it.res.trueGen = s.disc := by
+  have hi := reach_inv s0 s h0 hr
+  match hq : s.queue with
+  | [] => exact absurd hq hne
+  | r :: q =>
+    simp [step, hq, lookupHeld] at h
+    subst h
+    exact hi.1 r (by simp [hq])
+
 end Pool
